@@ -1276,3 +1276,68 @@ def rule_replace_restricts_sources(check, rule):
         check.holds(rule, site_of(m, m.node), 'replace(parameters=...) without a provenance map gives the result a map restricted to the new parameters '
                     '(%d paths)' % n, key=key)
     check.floor(rule, 'paths of replace() that are given parameters', n, 1)
+
+
+def rule_annotate_survives_discovery(check, rule):
+    """C11.R5 (D54, known): "values given to modifiers.annotate are reported verbatim ... through automatic discovery".  annotate leaves
+    its result in the function's `__signature__` only.  Automatic discovery of a function that forwards its star parameters reads the
+    function's own def with `__wrapped__` and `__signature__` set aside (the attribute list of the delete/restore window) and embeds the
+    callee in *that* signature, so the annotations (and the return annotation) given to annotate are gone from sigtools.signature(f),
+    while inspect.signature(f) and sigtools.signature(f, auto=False) report them.  Holds when annotate also tells discovery which signature
+    to start from (an autoforwards hint, as the other modifiers do), or the window no longer sets `__signature__` aside."""
+    repo = check.repo
+    ann = repo.func('modifiers:annotate.__call__')
+    check.analysed(ann)
+    stores_sig = [a for a in ast.walk(ann.node) if isinstance(a, ast.Assign) and any(isinstance(t, ast.Attribute) and t.attr == '__signature__'
+                                                                                   for t in a.targets)]
+    hints = [a for a in ast.walk(ann.node) if isinstance(a, (ast.Assign, ast.Call)) and '_sigtools__autoforwards_hint' in norm(a)]
+    ci = repo.cls('modifiers:annotate')
+    hints = hints or ('_sigtools__autoforwards_hint' in ci.methods)
+    win = repo.cls('_autoforwards:cleanup_functools_wrapper', required=False)
+    aside = False
+    if win is not None:
+        v = win.assigns.get('attrs')
+        aside = v is not None and any(isinstance(e, ast.Constant) and e.value == '__signature__' for e in ast.walk(v))
+    key = 'annotate-lost-in-discovery'
+    st = site_of(ann, stores_sig[0] if stores_sig else ann.node)
+    if stores_sig and aside and not hints:
+        check.violation(rule, st, 'annotate leaves its result in __signature__ only, which automatic discovery sets aside (cleanup_functools_wrapper.attrs) '
+                        'before it reads the signature it embeds the callee in: the annotations are lost for every function that forwards its star '
+                        'parameters', key=key,
+                        witness="@annotate('ret', a='x')\ndef outer(a, *args, **kwargs): return inner(*args, **kwargs)\nsigtools.signature(outer) has no "
+                                "annotation on a and no return annotation; inspect.signature(outer) and signature(outer, auto=False) have both")
+    else:
+        check.holds(rule, st, 'what annotate records is visible to automatic discovery', key=key)
+
+
+def rule_concile_compares_denotation(check, rule):
+    """C11.R6 (D55, known): "computing on functions compiled with `from __future__ import annotations` and then calling evaluated() gives the
+    same result as computing on eagerly annotated twins ... including identically spelled names bound to different objects".  Where two
+    inputs both annotate a parameter, merge keeps the annotation only when they agree.  Deciding that on the raw `.annotation` compares
+    source text under PEP 563 and objects otherwise: `a: T` with T bound to different classes in the two modules is kept (the left one) by
+    the postponed computation and dropped by the eager twin; differently spelled names of one object the other way round.  The decision
+    has to be taken on what the annotations denote (the upgraded annotations)."""
+    repo = check.repo
+    fi = repo.func('%s:_Merger._concile_meta' % SIG)
+    check.analysed(fi)
+    pos = fi.params()[0]
+    n = 0
+    for x in ast.walk(fi.node):
+        if not (isinstance(x, ast.Compare) and len(x.ops) == 1 and isinstance(x.ops[0], (ast.Eq, ast.NotEq))):
+            continue
+        ops = [x.left, x.comparators[0]]
+        if not all(isinstance(o, ast.Attribute) and isinstance(o.value, ast.Name) and o.value.id in pos for o in ops):
+            continue
+        if not any('annotation' in o.attr for o in ops):
+            continue
+        n += 1
+        key = 'concile-annotation-compare'
+        st = site_of(fi, x)
+        if all(o.attr == 'annotation' for o in ops):
+            check.violation(rule, st, '%s: agreement of the two annotations is decided on the raw values -- source text when postponed, objects when '
+                            'eager -- so the postponed and the eager computation of the same merge differ' % norm(x), key=key,
+                            witness="module A: T = int; def f(a: T); module B: T = str; def g(a: T) -- merge keeps `a: T` (A's) when both are compiled "
+                                    "with postponed evaluation, and drops the annotation for the eager twins")
+        else:
+            check.holds(rule, st, '%s: agreement is decided on the upgraded annotations' % norm(x), key=key)
+    check.floor(rule, 'annotation comparisons in _concile_meta', n, 1)
